@@ -1023,6 +1023,19 @@ def run_scenario(sc, oracle_classes, judged=None, want_explicit=True, watchdog=T
                                     site="%s:%s" % (type(e).__name__, site))
 
             ctx.round = 0
+            # noisy neighbours: other instances living in the same process (plain classes, not recorded),
+            # constructed and driven for a while before the instance under test exists, then stepped between its rounds
+            neighbours = []
+            if sc.get("neighbours"):
+                from .twins import Actor
+                for nb in sc["neighbours"]:
+                    act = Actor(nb["sc"], name="N")
+                    for _ in range(1 + 2 * nb.get("pre", 0)):
+                        if not act.done:
+                            act.step()
+                    neighbours.append((act, max(1, nb.get("every", 1))))
+                    ctx.log("neighbour", nb["sc"]["algo"], nb.get("pre", 0), act.error)
+                    ctx.stats["neighbour-instances"] += 1
             part = ctx.partition_factory(sc["partition"])
             ctx.algo = call("construct", build_algo, sc, ctx, domain, part)
             ctx.log("construct", sc["algo"], ctx.nnodes)
@@ -1080,6 +1093,12 @@ def run_scenario(sc, oracle_classes, judged=None, want_explicit=True, watchdog=T
                 for _ in range(sched.get(i, 0)):
                     query(False)
                     ctx.stats["interjected-queries"] += 1
+                for act, every in neighbours:
+                    if i % every == 0 and not act.done:
+                        act.step()
+                        if not act.done:
+                            act.step()
+                        ctx.stats["neighbour-rounds"] += 1
             ctx.round = T
             if sc.get("final_query", True):
                 query(True)
@@ -1100,6 +1119,8 @@ def run_scenario(sc, oracle_classes, judged=None, want_explicit=True, watchdog=T
         res.fired["interject-query"] = ctx.stats["interjected-queries"]
     if ctx.stats.get("mid-round-queries"):
         res.fired["mid-round-query"] = ctx.stats["mid-round-queries"]
+    if ctx.stats.get("neighbour-rounds"):
+        res.fired["neighbour"] = ctx.stats["neighbour-rounds"]
     res.sites = seam.sites
     res.digest = ctx.digest()
     res.cells = ctx.nnodes
